@@ -55,6 +55,8 @@ def parity_encode_field_operator(fieldop: FieldOperator):
                 # does not seem to be advantageous
                 sign = ps.refactor_sign()
                 pauliop.add_pauli_string(WeightedPauliString(ps, sign * weight))
+    if not pauliop.pstrings:
+        pauliop.add_pauli_string(WeightedPauliString(PauliString.identity(L), 0))
     pauliop.remove_zero_weight_strings(tol=1e-14)
 
     return pauliop
